@@ -4,7 +4,6 @@ import (
 	"fmt"
 	"go/token"
 	"go/types"
-	"os"
 	"strings"
 
 	"golang.org/x/tools/go/ssa"
@@ -122,22 +121,6 @@ func isReturn(in ssa.Instruction) bool {
 	return ok
 }
 
-// callsTo returns a predicate matching Call/Defer (and optionally Go) instructions whose
-// static callee satisfies pred.
-func callsTo(pred func(*ssa.Function) bool, includeDefer, includeGo bool) func(ssa.Instruction) bool {
-	return func(in ssa.Instruction) bool {
-		switch x := in.(type) {
-		case *ssa.Call:
-			return pred(x.Call.StaticCallee())
-		case *ssa.Defer:
-			return includeDefer && pred(x.Call.StaticCallee())
-		case *ssa.Go:
-			return includeGo && pred(x.Call.StaticCallee())
-		}
-		return false
-	}
-}
-
 // ---------------------------------------------------------------------------------
 // K3: acyclic path enumeration with canonical branch atoms, effects and results.
 
@@ -214,14 +197,6 @@ func (p *Path) LitString() string {
 	return strings.Join(s, " ∧ ")
 }
 
-func (p *Path) EffectString() string {
-	var s []string
-	for _, e := range p.Effects {
-		s = append(s, e.String())
-	}
-	return strings.Join(s, "; ")
-}
-
 type EnumOpts struct {
 	Start     *ssa.BasicBlock // default: entry
 	StopBlock func(b *ssa.BasicBlock) bool
@@ -261,24 +236,6 @@ func isLogCall(c *ssa.CallCommon) bool {
 		return p == "github.com/apex/log" || p == "fmt" && strings.HasPrefix(o.Name(), "Sprint")
 	}
 	return false
-}
-
-func negOp(op string) string {
-	switch op {
-	case "<":
-		return ">="
-	case "<=":
-		return ">"
-	case ">":
-		return "<="
-	case ">=":
-		return "<"
-	case "==":
-		return "!="
-	case "!=":
-		return "=="
-	}
-	return op
 }
 
 func flipOp(op string) string {
@@ -594,9 +551,6 @@ func (w *World) enumPaths(fn *ssa.Function, o EnumOpts) EnumResult {
 						use(&nf)
 						for i, prm := range callee.Params {
 							if i >= len(c.Args) || nf.param[prm] != w.Resolve(c.Args[i]) {
-								if os.Getenv("PRUNNERLINT_DBG") != "" {
-									fmt.Fprintf(os.Stderr, "rebinding %s param %d: had %v (%T), now %v (%T)\n", callee.Name(), i, nf.param[prm], nf.param[prm], w.Resolve(c.Args[i]), w.Resolve(c.Args[i]))
-								}
 								return false
 							}
 						}
